@@ -292,6 +292,19 @@ func genC10(g *rand.Rand, tier string) any {
 			c.CProg = []Op{{K: 'f', A: nil, B: []Op{{K: 'R'}}}}
 			c.HProg = []Op{{K: 'w'}}
 		}
+		if g.IntN(3) == 0 {
+			// the caller resets the stream (cancels) at some point, possibly just
+			// before the connection ends
+			var b []Op
+			for k := g.IntN(4); k > 0; k-- {
+				b = append(b, Op{K: 'y'})
+			}
+			c.CProg = []Op{{K: 'f', A: nil, B: append(b, Op{K: 'x'})}}
+		}
+		// handlers return promptly once their context is done, not instantly
+		for k := g.IntN(4); k > 0; k-- {
+			c.HProg = append(c.HProg, Op{K: 'y'})
+		}
 		p.Calls = append(p.Calls, c)
 	}
 	p.Fault = g.IntN(3)
@@ -337,6 +350,8 @@ func execC10(e *Env, pp any) {
 		}
 	}
 	t := e.Log("fault", "", 0, fmt.Sprint(p.Fault))
+	_ = t
+	attemptsAtFault := sout.Attempts()
 	switch p.Fault {
 	case 0:
 		sin.FailRead(ErrInjected)
@@ -363,16 +378,9 @@ func execC10(e *Env, pp any) {
 	}
 	const prop = "C10"
 	faultName := []string{"readfail", "writefail", "stop"}[p.Fault%3]
-	wrote := sout.Written()
 	if p.Fault == 1 {
-		// a write failure can only end Serve if a write was attempted after it
-		attempted := false
-		for _, ev := range e.Hist {
-			if ev.N > t && (ev.Kind == "h.send" || ev.Kind == "h.ret" || ev.Kind == "h.sendhdr") {
-				attempted = true
-			}
-		}
-		_ = wrote
+		// a write failure can only end Serve if the server tried to write after it
+		attempted := sout.Attempts() > attemptsAtFault
 		if !attempted {
 			e.Note("writefail.no-write-attempted")
 			return
